@@ -8,7 +8,7 @@
    are RIGID (same challenge, other responses: a relation between the bases or a collision of the challenge hash).
    Rejection of edited proofs / other bounds, bases, modulus beyond that: correspondence + sweep. *)
 From ZK Require Import Cl ClArith ClSig ClMore ClConsts ClMask ClGroup ClBoudot.
-From ZK Require Import ClRange ClSound.
+From ZK Require Import ClRange ClSound ClSound4.
 
 Theorem C16_boudot_accepts :
   forall BP p g h n rmin rmax,
@@ -267,3 +267,42 @@ Check (C16_large_interval_accepts_bounds :
   forall (BP : bparams) (p : proof_li) (b T : Z),
   verify_large_interval BP p E g h n b T = Ok true -> (li_c BP p * b <= li_D1 p <= li_upper BP T b)%Z).
 Print Assumptions C16_large_interval_accepts_bounds.
+
+(* an accepted tolerance proof ties its sub-commitments to the commitment and to the POSITION of the bounds (not only to their distance) *)
+Theorem C16_tolerance_accepts_ties_E :
+  forall n : Z, (0 < n)%Z -> forall (BP : bparams) (p : proof_wt) (g gi h E Ei a b T Ea1i Eb1i : Z),
+  invert g n = Some gi -> invert E n = Some Ei -> invert (wt_Ea1 p) n = Some Ea1i -> invert (wt_Eb1 p) n = Some Eb1i ->
+  verify_of_tolerance BP p g h E n a b T = Ok true ->
+  exists aa bb, tol_aa BP a b T = Ok aa /\ tol_bb BP a b T = Ok bb /\
+    Zdiv.eqm n (wt_Ea2 p * wt_Ea1 p * gp n g gi aa) E /\ Zdiv.eqm n (wt_Eb2 p * wt_Eb1 p * E) (gp n g gi bb).
+Proof. exact tolerance_accepts_ties_E. Qed.
+Check (C16_tolerance_accepts_ties_E :
+  forall n : Z, (0 < n)%Z -> forall (BP : bparams) (p : proof_wt) (g gi h E Ei a b T Ea1i Eb1i : Z),
+  invert g n = Some gi -> invert E n = Some Ei -> invert (wt_Ea1 p) n = Some Ea1i -> invert (wt_Eb1 p) n = Some Eb1i ->
+  verify_of_tolerance BP p g h E n a b T = Ok true ->
+  exists aa bb, tol_aa BP a b T = Ok aa /\ tol_bb BP a b T = Ok bb /\
+    Zdiv.eqm n (wt_Ea2 p * wt_Ea1 p * gp n g gi aa) E /\ Zdiv.eqm n (wt_Eb2 p * wt_Eb1 p * E) (gp n g gi bb)).
+Print Assumptions C16_tolerance_accepts_ties_E.
+
+Theorem C16_boudot_accepts_ties_E :
+  forall n : Z, (0 < n)%Z -> forall (BP : bparams) (p : boudot) (g gi h rmin rmax Epi Ea1i Eb1i : Z),
+  invert g n = Some gi -> invert (bd_Eprime p) n = Some Epi ->
+  invert (wt_Ea1 (bd_wt p)) n = Some Ea1i -> invert (wt_Eb1 (bd_wt p)) n = Some Eb1i ->
+  boudot_verify BP p g h n rmin rmax = Ok true ->
+  let T := range_T BP rmin rmax in
+  pow_mod (bd_E p) (two T) n = Ok (bd_Eprime p) /\
+  exists aa bb, tol_aa BP rmin rmax T = Ok aa /\ tol_bb BP rmin rmax T = Ok bb /\
+    Zdiv.eqm n (wt_Ea2 (bd_wt p) * wt_Ea1 (bd_wt p) * gp n g gi aa) (bd_Eprime p) /\
+    Zdiv.eqm n (wt_Eb2 (bd_wt p) * wt_Eb1 (bd_wt p) * bd_Eprime p) (gp n g gi bb).
+Proof. exact boudot_accepts_ties_E. Qed.
+Check (C16_boudot_accepts_ties_E :
+  forall n : Z, (0 < n)%Z -> forall (BP : bparams) (p : boudot) (g gi h rmin rmax Epi Ea1i Eb1i : Z),
+  invert g n = Some gi -> invert (bd_Eprime p) n = Some Epi ->
+  invert (wt_Ea1 (bd_wt p)) n = Some Ea1i -> invert (wt_Eb1 (bd_wt p)) n = Some Eb1i ->
+  boudot_verify BP p g h n rmin rmax = Ok true ->
+  let T := range_T BP rmin rmax in
+  pow_mod (bd_E p) (two T) n = Ok (bd_Eprime p) /\
+  exists aa bb, tol_aa BP rmin rmax T = Ok aa /\ tol_bb BP rmin rmax T = Ok bb /\
+    Zdiv.eqm n (wt_Ea2 (bd_wt p) * wt_Ea1 (bd_wt p) * gp n g gi aa) (bd_Eprime p) /\
+    Zdiv.eqm n (wt_Eb2 (bd_wt p) * wt_Eb1 (bd_wt p) * bd_Eprime p) (gp n g gi bb)).
+Print Assumptions C16_boudot_accepts_ties_E.
